@@ -490,10 +490,16 @@ type FuncSpec struct {
 	Closures map[int]*FuncSpec
 	Relation string // closure: spec relation name; RelOver: captured slice var
 	RelOver  string
+	Sets     []GhostSet // ghost assignments performed at function entry ("sets g = expr")
 	Trusted  bool // contract is assumed, body not verified (extern/iface always)
 	File     string
 	Line     int
 	Bound    bool // set when bound to a function of the current tree
+}
+
+type GhostSet struct {
+	Name string
+	C    Clause
 }
 
 type SpecFunc struct {
@@ -532,7 +538,7 @@ func NewSpecDB() *SpecDB {
 
 var clauseKeywords = map[string]bool{"spec": true, "axiom": true, "lemma": true, "ghost": true, "func": true, "iface": true,
 	"extern": true, "params": true, "results": true, "requires": true, "ensures": true, "modifies": true, "loop": true,
-	"closure": true, "invariant": true, "relation": true, "trusted": true, "end": true}
+	"closure": true, "invariant": true, "relation": true, "trusted": true, "end": true, "sets": true}
 
 // canonKey turns "Name", "(*T).M", "(T).M", "I.M" into a key qualified by pkg, unless already qualified (contains '/').
 func canonKey(pkg, name string) string {
@@ -694,6 +700,18 @@ func (db *SpecDB) LoadSpecFile(path, pkg string, stripPrefix bool) error {
 			target.Results = splitNames(s.rest)
 		case "trusted":
 			target.Trusted = true
+		case "sets":
+			k := strings.Index(s.rest, "=")
+			if k < 0 || target == nil {
+				return fmt.Errorf("%s:%d: sets needs 'ghost = expr'", path, s.n)
+			}
+			name := strings.TrimSpace(s.rest[:k])
+			body := strings.TrimSpace(s.rest[k+1:])
+			e, err := ParseSpecExpr(body)
+			if err != nil {
+				return fmt.Errorf("%s:%d: %v", path, s.n, err)
+			}
+			target.Sets = append(target.Sets, GhostSet{Name: name, C: Clause{Text: body, Expr: e, Line: s.n, File: path}})
 		case "relation":
 			f := strings.Fields(s.rest)
 			if len(f) != 3 || f[1] != "over" {
